@@ -424,13 +424,17 @@ def ite(c, a, b):
     if isinstance(a, SList) and isinstance(b, SList):
         return SList(If(c, a.n, b.n), lambda i, a=a, b=b, c=c: ite(c, a.at(i), b.at(i)), a.fresh and b.fresh)
     if isinstance(a, SDict) and isinstance(b, SDict):
-        return SDict(
+        d = SDict(
             ite(c, a.keys, b.keys),
             lambda k: If(c, a.dom(k), b.dom(k)),
             lambda k: ite(c, a.val(k), b.val(k)),
             lambda k: If(c, a.idx(k), b.idx(k)),
-            a.kwrap,
+            a.kwrap or b.kwrap,
         )
+        d.ksort = getattr(a, "ksort", None)
+        if d.ksort is None:
+            d.ksort = getattr(b, "ksort", None)
+        return d
     if isinstance(a, SSet) and isinstance(b, SSet):
         card = If(c, a.card, b.card) if (a.card is not None and b.card is not None) else None
         return SSet(lambda k: If(c, a.dom(k), b.dom(k)), card, a.kwrap)
